@@ -8,7 +8,7 @@ from vlint.paths import Summariser, ret_okness
 from vlint.terms import Sym, show, subterms, peel
 from vlint.util import must_of, sites
 from . import common, panics
-from .c06 import policy_sets
+from .c06 import policy_sets, policy_accepts_without_files
 
 ctx_single_iff = [False]
 
@@ -38,6 +38,7 @@ def run(ctx, chk):
     v1(fb, chk)
     v2(fb, chk)
     v3(fb, chk)
+    chk.floor("V5", v5(fb, chk), 10)
     n = lambda r: len([i for i in chk.instances if i[0] == r])
     # the validity rules the handler relies on are decided exactly by C20/X2 for the types the backend server decodes
     from vlint.report import Renamed as _Renamed
@@ -63,6 +64,7 @@ def thorough(ctx, chk):
     v1(fb, chk, tag="base/")
     v2(fb, chk, tag="base/")
     v3(fb, chk, tag="base/")
+    v5(fb, chk, tag="base/")
 
 
 # ---------------------------------------------------------------------------- V1
@@ -81,6 +83,14 @@ def v1(fb, chk, tag=""):
               "requests allowed to carry descriptors: %s; all others rejected when descriptors are attached" % sorted(allowed),
               "attached-file policy admits descriptors for %s; the protocol's descriptor-carrying requests are %s (others rejected: %s)"
               % (sorted(allowed), sorted(wire.FD_CARRYING | {"SET_LOG_FD"}), others_ok), pol.loc())
+    # requests whose descriptor is optional (the vring notifiers: bit 8 of the body says "no descriptor") are well-formed
+    # without any descriptor, so the policy must accept them when none is attached
+    nofile = policy_accepts_without_files(fb, pol)
+    opt = {c_ for c_, r_ in wire.FRONTEND_TABLE.items() if r_["fds"] == "opt" and "B" in r_["impl"]}
+    miss = sorted(c_ for c_ in opt if c_ not in nofile and not (c_ not in allowed and None in nofile))
+    chk.check(not miss, "V1", tag + "policy:optional-fd", "requests with an optional descriptor are accepted without one: %s" % sorted(opt),
+              "the attached-file policy refuses %s when no descriptor is attached, although the descriptor is optional (bit 8 of the body)"
+              % miss, pol.loc())
     for bb, t in hr.calls():
         c = callee_of(t)
         if c is None:
@@ -130,6 +140,10 @@ def v1(fb, chk, tag=""):
                     probs.append("undefined config flags not rejected")
             elif code == "SET_MEM_TABLE":
                 probs += mem_table_facts(fb, f, bb, atoms)
+            if code == "SET_VRING_ENABLE":
+                from .c02 import _enable_mapping
+                if not _enable_mapping(fb, mm, bb):
+                    probs.append("the enable value is not restricted to {0, 1} on every path to the handler call")
             else:
                 if ("ok", "check_request_size") not in names and row["body"] is None and row["fds"] == 0:
                     # header-only requests: size must be checked unless the arm cannot misbehave on a body
@@ -227,27 +241,25 @@ def mem_table_facts(fb, f, bb, atoms):
         probs.append("message size not tied to 8 + n*32")
     if not files_eq:
         probs.append("number of files not tied to the number of regions")
-    # per-region validation loop: is_valid on the iterated element; its false edge cannot reach the handler
+    # per-region validation loop: is_valid on the iterated element.  The handler is reached from the validation only through
+    # the loop head (the `next` call), and every way back to the loop head carries the must-fact `is_valid(element) == true`:
+    # an element that fails the validator never lets the loop continue, so the loop ends normally only when all passed.
     cfg = CFG(f)
     m = must_of(fb, f)
     looped = False
     for sb, t, c in sites(f, name="is_valid"):
         args = m.sym.arg_terms(sb)
-        if any(s[0] == "call" and s[1] == "next" for s in subterms(args[0])):
-            # the switch on the result
-            nxt = t.get("t")
-            while nxt is not None and f.blocks[nxt]["term"]["k"] == "goto":
-                nxt = f.blocks[nxt]["term"]["t"]
-            if nxt is not None and f.blocks[nxt]["term"]["k"] == "switch":
-                sw = f.blocks[nxt]["term"]
-                false_succ = None
-                for v, tg in zip(sw["vals"], sw["tgts"]):
-                    if v == 0:
-                        false_succ = tg
-                # `!is_valid` may be computed first: find which successor cannot reach the handler
-                reach_any = [s for s in cfg.succ[nxt] if bb in cfg.reach(s)]
-                if len(reach_any) < len(cfg.succ[nxt]):
-                    looped = True
+        nxt_calls = [s for s in subterms(args[0]) if s[0] == "call" and s[1] == "next"]
+        if not nxt_calls:
+            continue
+        nb = nxt_calls[0][3]
+        if not isinstance(nb, int) or not cfg.all_paths_pass_through(sb, {bb}, {nb}):
+            continue
+        call = m.sym.call_at(sb)
+        inloop = cfg.reach(sb)
+        backs = [p for p in cfg.pred[nb] if p in inloop and not f.blocks[p]["cleanup"]]
+        if backs and all(any(a[0] == "true" and a[1] == call for a in m.atoms_at(p)) for p in backs):
+            looped = True
     if not looped:
         probs.append("regions are not validated one by one before the handler call")
     return probs
@@ -454,3 +466,91 @@ def v3(fb, chk, tag=""):
                             tie = True
     chk.check(tie, "V3", tag + "dispatch:size-tie", "(size, buf) built under the must-fact received length == hdr.size",
               "the dispatch no longer establishes size == buf.len() (short body reads must be rejected before use)", hr.loc())
+
+
+# ---------------------------------------------------------------------------- V5
+
+def _strip(t):
+    while t[0] in ("ref", "deref", "cast"):
+        t = t[1]
+    return t
+
+
+def iovec_extent(t):
+    """For the `iov_base` term of a receive iovec: ('expr', length term) / ('sizeof', None) / ('sub', (vec, off)) / None."""
+    b = _strip(t)
+    if b[0] == "call" and b[1] in ("as_mut_ptr", "as_ptr") and b[2]:
+        x = _strip(b[2][0])
+        if x[0] == "call" and x[1] == "from_elem" and len(x[2]) == 2:
+            return "expr", x[2][1]
+        if x[0] == "param":
+            return "len", x
+        if x[0] == "call" and x[1] in ("index_mut", "index") and len(x[2]) == 2:
+            base, rng = _strip(x[2][0]), _strip(x[2][1])
+            if rng[0] == "agg" and rng[1].endswith("RangeFrom") and base[0] == "call" and base[1] == "from_elem":
+                return "minus", (base[2][1], rng[3][0][1])
+            if rng[0] == "agg" and rng[1].endswith("RangeFrom") and base[0] == "param":
+                return "lenminus", (base, rng[3][0][1])
+        return None
+    if b[0] == "bin" and b[1] == "Add":
+        # (iovs[i].iov_base as usize) + k
+        x, k = _strip(b[2]), b[3]
+        if x[0] == "field" and x[2] == "iov_base":
+            return "sub", (x[1], k)
+        return None
+    if t[0] == "cast" and t[1][0] == "ref":
+        return "sizeof", None
+    return None
+
+
+def v5(fb, chk, tag=""):
+    """Every iovec handed to recvmsg describes memory inside the buffer it points into: `iov_len` is exactly the length of
+    the slice `iov_base` was taken from (for a sub-slice `buf[k..]` the length minus k; for a typed value its size_of)."""
+    chk.rule("V5", "receive iovecs: iov_len equals the extent of the buffer iov_base points into (no write or read beyond the message buffer)")
+    n = 0
+    for f in sorted(fb.fns.values(), key=lambda g: g.key):
+        if not (f.self_adt or "").endswith("Endpoint"):
+            continue
+        sym = None
+        k = 0
+        for bi, b in enumerate(f.blocks):
+            if b["cleanup"]:
+                continue
+            for st in b["stmts"]:
+                if not (st["k"] == "assign" and st["rv"]["k"] == "agg" and st["rv"].get("ak") == "adt" and st["rv"]["adt"].endswith("iovec")):
+                    continue
+                sym = sym or Sym(f, fb)
+                v = sym.rvalue(st["rv"])
+                flds = dict(v[3])
+                base, ln = flds.get("iov_base"), flds.get("iov_len")
+                k += 1
+                key = "%siovec:%s:%d" % (tag, f.short, k)
+                if base is None or ln is None:
+                    continue
+                ext = iovec_extent(base)
+                if ext is None:
+                    chk.ok("V5", key, "unclassified buffer form (not decided)", f.loc(st.get("line")))
+                    continue
+                kind, want = ext
+                lnp = ln
+                good = False
+                if kind == "expr":
+                    good = lnp == want
+                elif kind == "len":
+                    good = lnp[0] == "call" and lnp[1] == "len" and _strip(lnp[2][0]) == want
+                elif kind == "minus":
+                    good = lnp[0] == "bin" and lnp[1] == "Sub" and lnp[2] == want[0] and lnp[3] == want[1]
+                elif kind == "lenminus":
+                    good = lnp[0] == "bin" and lnp[1] == "Sub" and lnp[2][0] == "call" and lnp[2][1] == "len" and \
+                        _strip(lnp[2][2][0]) == want[0] and lnp[3] == want[1]
+                elif kind == "sub":
+                    x = _strip(lnp[2]) if lnp[0] == "bin" and lnp[1] == "Sub" else None
+                    good = x is not None and x[0] == "field" and x[2] == "iov_len" and x[1] == want[0] and lnp[3] == want[1]
+                elif kind == "sizeof":
+                    good = lnp[0] == "call" and lnp[1] == "size_of"
+                n += 1
+                chk.check(good, "V5", key, "iov_len = extent of the buffer (%s)" % kind,
+                          "iovec in %s: iov_len is `%s`, which is not the extent of the buffer iov_base points into (%s form); the "
+                          "kernel may write past the buffer / into bytes of the next message" % (f.short, show(ln)[:80], kind),
+                          f.loc(st.get("line")))
+    return n
